@@ -335,16 +335,38 @@ func NewTicker(d time.Duration) *Ticker {
 	return &Ticker{C: s.tick}
 }
 
-// Lock acquires mu with a point before every attempt; a failed attempt parks again at the same label.
-func Lock(m *sync.Mutex, label string) {
+// Locker is what Lock needs of a lock: *sync.Mutex and *sync.RWMutex (its writer side) both qualify.
+type Locker interface {
+	Lock()
+	TryLock() bool
+}
+
+// RLocker is the reader side of a reader/writer lock (*sync.RWMutex).
+type RLocker interface {
+	RLock()
+	TryRLock() bool
+}
+
+// Lock acquires m with a point before every attempt; a failed attempt parks again at the same label.
+func Lock(m Locker, label string) { LockF(label, m.TryLock, m.Lock) }
+
+// RLock acquires the reader side of m with a point before every attempt.  Reader/writer semantics are those of the
+// real sync.RWMutex under a scheduler in which nobody ever blocks inside Lock(): several readers hold it together
+// (TryRLock succeeds while no writer holds it), a writer is exclusive (TryLock fails while any reader or writer
+// holds it).  The unlock calls of the instrumented code are the real ones.
+func RLock(m RLocker, label string) { LockF(label, m.TryRLock, m.RLock) }
+
+// LockF is the general form (the rewriter passes method values, so the lock may be a value or a pointer field of
+// any type that has the try/blocking pair): try is attempted after a Point; without a scheduler block is called.
+func LockF(label string, try func() bool, block func()) {
 	_, t := current()
 	if t == nil {
-		m.Lock()
+		block()
 		return
 	}
 	for {
 		Point(label, nil)
-		if m.TryLock() {
+		if try() {
 			return
 		}
 		t.Waiting = true
